@@ -16,12 +16,14 @@ PROP = dict(
     engines=['c12'],
     go_tags=['c11'],
     gen_files={},
-    lean_modules=["MM.Props.C12"],
+    lean_modules=["MM.Props.C12", "MM.Props.C12Conv"],
     theorems=[
         "MM.C12.C12_holds",
         "MM.C12.C12_path_is_chain",
         "MM.C12.C12_open_reaches_origin",
         "MM.C12.openWalk_chain",
+        "MM.C12.C12_converges",
+        "MM.C12.C12_converges_run",
     ],
     spec=True,
     rule="cases = random topology (chain/ring/star/clique/tree+extra edges, 2..5 agents, rarely 9..20; thorough up to 7) x random local routes (CIDR v4/v6, domain exact/wildcard, forward; base metrics 0..10 and 65534) x op schedule written while driving the real mesh: bring links up (with/without table replay, before or between deliveries), deliver/duplicate/lose a chosen queued frame, announce, expire a cached key, replay a table, stale cleanup; every case drains to quiescence and dumps the whole state. After every op both sides print the acting agent's counter, seen cache, all four tables (metric, sequence, path, last-update tick) and the touched queues (origin, sequence, path, seen-by, routes+metrics). Non-trivial = an op that handled a frame, replayed a table or changed a cache/table. Engine c12 adds clean convergence cases (whole topology up before any delivery, only deliveries/duplicates/announcements, every agent announces, FIFO drain, `dump converged`). spec: every learned route's next hop is a linked neighbour and the head of the path, consecutive path agents are linked, the path ends at the origin, the handleStreamOpen walk reaches the origin; at `dump converged` every agent holds every other agent's presence and every advertised route",
@@ -38,13 +40,13 @@ PROP = dict(
         "per-key route lists have <= 12 entries (Go's sort.Slice is a stable insertion sort only up to 12 elements)",
         'links are only added (stable topology); peer disconnect and ROUTE_WITHDRAW are outside this model',
         'plain (non-sealed-box) configuration: paths travel as plaintext EncryptedData, display names ignored',
-        'convergence (every agent learns every route) needs reliable delivery as a fairness hypothesis: exercised by the differential run, not proved',
+        'C12_converges assumes reliable delivery (no frame of the announcement left in flight), no connect/replay/loss/expiry/stale cleanup during the flood, no hop limit, and covers CIDR/domain/forward routes (the presence route is covered by the differential run only)',
     ],
     chunk=6000,
     search_seconds=45,
     manifest=dict(
         category="proof",
-        text="Lean theorem C12_holds: in every reachable state of the flood LTS (any topology, schedule, replays included) each learned route's next hop is a current neighbour, its path is a chain of links ending at the origin, and the STREAM_OPEN walk along it reaches the advertising agent. Convergence is checked on the real code only (clean cases), not proved",
+        text="Lean theorem C12_holds: in every reachable state of the flood LTS (any topology, schedule, replays included) each learned route's next hop is a current neighbour, its path is a chain of links ending at the origin, and the STREAM_OPEN walk along it reaches the advertising agent. C12_converges: on a stable topology without hop limit, after a fresh announcement and any schedule of deliveries/duplicates/announcements that leaves no frame of it in flight (reliable links = fairness hypothesis), every agent connected to the origin has handled it and holds every advertised CIDR/domain/forward route with that or a later sequence number; freshness is a theorem after histories without third-party replays (C12_converges_run). Also checked on the real code (clean cases)",
         design_ref='DESIGN.md section 5 C12',
         note="Lean kernel; flood LTS model tied by the differential run; logical clock; expiry as a free op; no disconnect/withdraw",
         technique="Lean 4 proof (inductive invariants over a network LTS) + differential correspondence harness on N real Flooder/Manager pairs",
